@@ -5,13 +5,14 @@ import numpy as np
 
 from vf import common, models, refhash
 from vf.common import Violation
+from vf.world import sut
 
 from sketchnu.hll_constants import sub_algorithm_threshold
 from sketchnu.hyperloglog import HyperLogLog
 
 RULE = (
     "For each p in 7..16 and each of S sketch seeds (quick 24, thorough 300; seeds and the key stream are functions of VERIF_SEED) "
-    "one HyperLogLog is filled incrementally with distinct keys of varied length (9..16 bytes: random prefix, counter, random tail) and "
+    "one HyperLogLog is filled incrementally (by add(), update(list) or update(dict), rotating with the seed index) with distinct keys of varied length (9..16 bytes: random prefix, counter, random tail) and "
     "queried at every grid point n: log grid (ratio 1.25) from 1 to 12*2^p (quick) / 40*2^p (thorough) plus threshold[p] +- {0,1,2}*m/50, "
     "2.5m, 5m +- {0,1,2}*m/50. Oracles: empty sketch -> exactly 0.0; while m*ln(m/(m-n)) <= threshold[p]: query <= m*ln(m/(m-n)) "
     "(deterministic) and, for the first seed of every p, query == linear counting of the occupied-register count predicted by the "
@@ -59,12 +60,20 @@ _KEYS = None
 
 
 def _task(arg):
-    p, hseed, nmax_factor, with_ref = arg
+    p, hseed, nmax_factor, with_ref = arg[:4]
+    mode = arg[4] if len(arg) > 4 else 0
+    try:
+        return _task_inner(p, hseed, nmax_factor, with_ref, mode)
+    except Violation as v:
+        return {"p": p, "hseed": hseed, "viol": (-1, v.msg, v.signature), "ests": []}
+
+
+def _task_inner(p, hseed, nmax_factor, with_ref, mode):
     m = 1 << p
     grid = grid_for(p, nmax_factor)
     h = HyperLogLog(p, hseed)
     out = []
-    e0 = h.query()
+    e0 = sut(h.query)
     if not (e0 == 0.0):
         return {"p": p, "hseed": hseed, "viol": (0, f"empty sketch query()={e0!r}, expected exactly 0.0", "empty-not-zero"), "ests": []}
     thr = float(sub_algorithm_threshold[p - 7])
@@ -72,14 +81,19 @@ def _task(arg):
     add = h.add
     occupied = set()
     for n in grid:
-        for k in _KEYS[pos:n]:
-            add(k)
+        if mode == 0:
+            for k in _KEYS[pos:n]:
+                add(k)
+        elif mode == 1:
+            sut(h.update, _KEYS[pos:n])
+        else:
+            sut(h.update, dict.fromkeys(_KEYS[pos:n], 3))
         if with_ref:
             for k in _KEYS[pos:n]:
                 if n < m and m * math.log(m / (m - n)) <= thr * 1.0 + 1:
                     occupied.add(refhash.fasthash64(k, hseed) & (m - 1))
         pos = n
-        est = float(h.query())
+        est = float(sut(h.query))
         lc_n = m * math.log(m / (m - n)) if n < m else float("inf")
         if lc_n <= thr:
             if est > lc_n * (1 + 1e-12):
@@ -104,7 +118,7 @@ def run(tier, seed, rec):
     for p in range(16, 6, -1):
         for i in range(S):
             hs = common.derive_seed(seed, "C07-hll", p, i) if i > 2 else [0, 2**64 - 1, 2**32][i]
-            tasks.append((p, hs, F, i == 0))
+            tasks.append((p, hs, F, i == 0, i % 3))
     results = common.pool_map(_task, tasks)
     per = {}
     for r in results:
@@ -150,7 +164,7 @@ def replay(case):
         devs = []
         for i in range(S):
             hs = common.derive_seed(case["verif_seed"], "C07-hll", p, i) if i > 2 else [0, 2**64 - 1, 2**32][i]
-            r = _task((p, hs, F, False))
+            r = _task((p, hs, F, False, i % 3))
             if r["viol"]:
                 raise Violation(r["viol"][1], r["viol"][2])
             devs += [est / n - 1.0 for n, est, regime in r["ests"] if n == case["n"] and regime]
@@ -159,7 +173,7 @@ def replay(case):
         if abs(mean) > (1.0 + 8.0 / math.sqrt(S)) * sigma:
             raise Violation(f"p={p} n={case['n']}: mean relative error {mean/sigma:.2f} sigma", "mean-bias")
         return
-    r = _task((case["p"], case["hseed"], F, True))
+    r = max((_task((case["p"], case["hseed"], F, True, mode)) for mode in (0, 1, 2)), key=lambda r: r["viol"] is not None)
     if r["viol"]:
         raise Violation(r["viol"][1], r["viol"][2])
     sigma = 1.04 / math.sqrt(1 << case["p"])
